@@ -149,6 +149,9 @@ def client_hello(alpn=(ACME_ALPN,), server_name="example.org"):
 
 BEHAVIOURS = ["connect-close", "garbage", "plain-http", "tls-no-alpn", "tls-foreign-alpn",
               "hello-abandoned", "stalled-50"]
+# aborted variants of "TCP connect + close" (the close is a RST, possibly while the connection is
+# still in the listen queue): part of every history's prologue in C17
+EXTRA_BEHAVIOURS = ["connect-reset-burst"]
 
 
 def behave(listen, kind, held):
@@ -158,6 +161,15 @@ def behave(listen, kind, held):
         if kind == "connect-close":
             s = connect(listen)
             s.close()
+        elif kind == "connect-reset-burst":
+            import struct
+            for _ in range(40):
+                try:
+                    s = connect(listen)
+                    s.setsockopt(socket.SOL_SOCKET, socket.SO_LINGER, struct.pack("ii", 1, 0))
+                    s.close()      # RST instead of FIN
+                except OSError:
+                    pass
         elif kind == "garbage":
             s = connect(listen)
             s.sendall(os.urandom(300))
